@@ -2,13 +2,18 @@
 # usage: seedtest.sh <patch.diff> <prop> [<prop> ...]
 # Applies a seeded change to a scratch copy of /repo (never to /repo itself) and runs the quick
 # checks of the given properties against it, with the committed ledgers and known findings.
+# env SNAP=<dir> runs against a frozen snapshot made by tools/snapshot.sh (<dir>/repo, <dir>/verif,
+# <dir>/gowp) instead of the live /repo, /verif and /verif/bin/gowp.
 patch=$1; shift
+R=${SNAP:+$SNAP/repo}; R=${R:-/repo}
+V=${SNAP:+$SNAP/verif}; V=${V:-/verif}
+G=${SNAP:+$SNAP/gowp}; G=${G:-/verif/bin/gowp}
 d=$(mktemp -d /tmp/seedrun.XXXX)
-cp -r /repo/. $d/ && rm -rf $d/.git
+cp -r $R/. $d/ && rm -rf $d/.git
 (cd $d && git init -q . 2>/dev/null; git -C $d apply --whitespace=nowarn $patch) || { echo "PATCH DID NOT APPLY"; rm -rf $d; exit 2; }
 (cd $d && GOFLAGS=-mod=mod GOPROXY=off GOSUMDB=off GOTOOLCHAIN=local go build ./... 2>&1 | head -3)
-mkdir -p $d/.verif && cp -r /verif/ledger /verif/KNOWN_FINDINGS.txt /verif/properties.jsonl $d/.verif/
+mkdir -p $d/.verif && cp -r $V/ledger $V/KNOWN_FINDINGS.txt $V/properties.jsonl $d/.verif/
 for prop in "$@"; do
-  /verif/bin/gowp check --prop $prop --repo $d --verif $d/.verif 2>&1 | grep -E "^VIOLATION|^KNOWN|gowp:" | cut -c1-260
+  $G check --prop $prop --repo $d --verif $d/.verif 2>&1 | grep -E "^VIOLATION|^KNOWN|gowp:" | cut -c1-260
 done
 rm -rf $d
